@@ -368,6 +368,8 @@ func init() {
 				note: "the same generator and oracle as the stream named in front of the dash, but every request goes through decideHandler of main.go in-process (gin binding, the handler's own request object) after a history of 1..3 unrelated requests (accepted and rejected)"},
 			{name: "events", n: tierN(28000, 500000), unit: 3500, run: biasDriver("C16", "preferenceReversal", oneToThree, nil),
 				floors: map[string]int64{"reversal_events": 15000, "reversal_nonempty": 5000, "reversal_with_notconsidered": 1500}},
+			{name: "frequencyTwo", n: tierN(6, 24), unit: 1, run: c16FrequencyTwo, floors: map[string]int64{"two_criteria_frequency_batteries": 6},
+				note: "probability orderings with two criteria (importance 1 and 2): which one a reversal with ratio 0.5 selects, over 1500 seeds"},
 			{name: "involution", n: tierN(7000, 100000), unit: 3500, run: c16Involution, floors: map[string]int64{"involutions_checked": 5000}},
 		},
 	})
